@@ -1,7 +1,8 @@
 (* C16 — statements only. Each theorem is closed by [exact] of a lemma proved in Proofs.v / Conc.v
    and followed by Print Assumptions. *)
 From GVL Require Import NList.
-From GV_ring Require Import Model Proofs ConcModel ConcProofs.
+From GV_ring Require Import Model Proofs ConcModel ConcProofs SkelCheck.
+From GVG Require Import Skel.
 From Coq Require Import Permutation.
 Open Scope N_scope.
 
@@ -86,6 +87,15 @@ Proof.
   exact (closed_frozen cb_err _ t c' HI Hk Hst).
 Qed.
 Print Assumptions C16_nothing_after_close.
+
+(* the tie of the interleaving model to the Go text: the synchronisation skeleton regenerated from
+   ringbuffer.go and async_processor.go on this run is the one the model was written from *)
+Theorem C16_sync_skeleton_matches_model :
+  skel_ring_push = expected_ring_push /\ skel_ring_pull = expected_ring_pull /\
+  skel_ring_close = expected_ring_close /\ skel_ap_close = expected_ap_close /\
+  skel_ap_start = expected_ap_start /\ skel_ap_push = expected_ap_push.
+Proof. exact sync_skeleton_matches_model. Qed.
+Print Assumptions C16_sync_skeleton_matches_model.
 
 (* non-vacuity of the concurrent model: 2 producers on a ring of 1, a schedule that pushes, is refused,
    executes, closes and joins *)
